@@ -166,8 +166,14 @@ def run(ck):
                 if arm == ["Count"]:
                     uses_first = bool(lo_locals & set(locs)) or df.mentions(ex, lambda y: y == lo)
                     uses_n = df.mentions(ex, lambda x: isinstance(x, tuple) and x[0] == "downcast" and x[2] == "Count")
+                    # a clamp written out (`if wanted < len { wanted } else { len }`) has a second definition in this arm: the length
+                    is_len = (df.is_call(ex, "::len") or df.mentions(ex, lambda x: df.is_call(x, "::len"))) and not uses_n
                     if uses_first and uses_n:
                         kinds.append("Count: depends on first_patch and n")
+                    elif is_len and any(h2 is not hd and [v for v, blocks in arms.items() if h2["bb"] in blocks] == ["Count"] and
+                                        (bool(lo_locals & set(h2["locs"])) or df.mentions(h2["ex"], lambda y: y == lo)) and
+                                        df.mentions(h2["ex"], lambda x: isinstance(x, tuple) and x[0] == "downcast" and x[2] == "Count") for h2 in hi_defs):
+                        kinds.append("Count: clamped to the length of the series")
                     else:
                         bad.append("Count goal resolved as %s (depends on first_patch: %s, on n: %s)" % (df.show(ex, 120), uses_first, uses_n))
                 elif arm == ["UpTo"]:
